@@ -5,6 +5,9 @@ import Driver.Parse
 import Sparrow.Model.Lifecycle
 import Sparrow.Model.Patches
 import Sparrow.Model.Brdf
+import Sparrow.Model.Frame
+import Sparrow.Model.Kang
+import Sparrow.Model.Directivity
 import Sparrow.Generated.CheckParse
 open Sparrow Driver
 
@@ -326,6 +329,105 @@ def cmdNearest : P String := do
     mg := mg.push (argminMargin n fun j => Vec3.sqDist (vec3At ds j) q)
   return "ok " ++ fmtNats out ++ " | " ++ fmtFloats mg
 
+/-- `frame n[3] u[3] m dirs[m*3]` → `ok rotated[m*3]` -/
+def cmdFrame : P String := do
+  let nv ← flts 3; let uv ← flts 3
+  let m ← nat
+  let ds ← flts (3 * m)
+  let mut out := Array.mkEmpty (3 * m)
+  for k in [0:m] do
+    let r := rotateToWall (vec3At nv 0) (vec3At uv 0) (vec3At ds k)
+    out := out.push r.x |>.push r.y |>.push r.z
+  return "ok " ++ fmtFloats out
+
+/-- `kangff orth sc[3] rc[3] ns[3] nr[3] dd` | `kangff par sc[3] rc[3] wd[3] dd` → `ok value` -/
+def cmdKangFF : P String := do
+  let kind ← tok
+  if kind == "orth" then
+    let sc ← flts 3; let rc ← flts 3; let ns ← flts 3; let nr ← flts 3; let dd ← flt
+    return "ok " ++ hexOfFloat (kangFFOrth (vec3At sc 0) (vec3At rc 0) (vec3At ns 0) (vec3At nr 0) dd 1e-5 1e-12)
+  else
+    let sc ← flts 3; let rc ← flts 3; let wd ← flts 3; let dd ← flt
+    match kangFFPar (vec3At sc 0) (vec3At rc 0) (vec3At wd 0) dd 1e-5 with
+    | some v => return "ok " ++ hexOfFloat v
+    | none => return "err assertion"
+
+/-- `kanginit dl dm dn ddl ddm sx sy sz power alpha dist att` → `ok value` -/
+def cmdKangInit : P String := do
+  let a ← flts 12
+  let g := fun i => a.getD i 0
+  return "ok " ++ hexOfFloat (kangInit (g 0) (g 1) (g 2) (g 3) (g 4) (g 5) (g 6) (g 7) (g 8) (g 9) (g 10) (g 11) 1e-11)
+
+/-- `kanginitp normal[3] center[3] size[3] src[3] power alpha att` → `ok value` -/
+def cmdKangInitP : P String := do
+  let n ← flts 3; let c ← flts 3; let sz ← flts 3; let sr ← flts 3
+  let power ← flt; let alpha ← flt; let att ← flt
+  return "ok " ++ hexOfFloat (kangInitPatch (vec3At n 0) (vec3At c 0) (vec3At sz 0) (vec3At sr 0) power alpha att 0.99 1e-11)
+
+/-- `kangrun P S K c fs m wall[P] dist0[P] e0[P] dist[P*P] ff[P*P] refl[P]`
+    → `ok H[(K+1)*P*S]` (order-major) -/
+def cmdKangRun : P String := do
+  let p ← nat; let s ← nat; let k ← nat
+  let c ← flt; let fs ← flt; let m ← flt
+  let wall ← nats p
+  let dist0 ← flts p; let e0 ← flts p
+  let dist ← flts (p * p); let ff ← flts (p * p); let refl ← flts p
+  let ks : KangScene Float := {
+    P := p, S := s, wall := fun i => wall.getD i 0
+    bin0 := fun j => binKang (dist0.getD j 0) c fs
+    bin := fun i j => binKang (dist.getD (i * p + j) 0) c fs
+    e0 := fun j => e0.getD j 0
+    ff := fun i j => ff.getD (i * p + j) 0
+    refl := fun j => refl.getD j 0
+    attw := fun i j => Float.exp (-m * dist.getD (i * p + j) 0) }
+  let sc := ks.toEx
+  let mut out := Array.mkEmpty ((k + 1) * p * s)
+  for kk in [0:k+1] do
+    let T := orderTab sc kk
+    for j in [0:p] do
+      for t in [0:s] do
+        out := out.push (lookup3 T j 0 t)
+  return "ok " ++ fmtFloats out
+
+/-- `kangrecv P S K c fs m recv[3] centers[3P] normals[3P] H[(K+1)*P*S]` → `ok response[S]` -/
+def cmdKangRecv : P String := do
+  let p ← nat; let s ← nat; let k ← nat
+  let c ← flt; let fs ← flt; let m ← flt
+  let rv ← flts 3
+  let cs ← flts (3 * p); let ns ← flts (3 * p)
+  let h ← flts ((k + 1) * p * s)
+  let r := vec3At rv 0
+  let f := kangReceiverOf p k (fun kk j t => if t < s then h.getD ((kk * p + j) * s + t) 0 else 0)
+    (fun j => binKang (Vec3.norm (Vec3.sub (vec3At cs j) r)) c fs)
+    (fun j => kangRecvFactor (vec3At ns j) (vec3At cs j) r m)
+  let mut out := Array.mkEmpty s
+  for t in [0:s] do
+    out := out.push (f t)
+  return "ok " ++ fmtFloats out
+
+/-- `metrics pos[3] view[3] up[3] target[3]` → `ok az el | dir[3] | cart_from_angles[3]` -/
+def cmdMetrics : P String := do
+  let a ← flts 12
+  let pos := vec3At a 0; let view := vec3At a 1; let up := vec3At a 2; let tg := vec3At a 3
+  let (az, el) := metricsAngles pos view up tg
+  let d := metricsDir pos view up tg
+  let c := sphToCart Float.cos Float.sin az el
+  return "ok " ++ fmtFloats #[az, el] ++ " | " ++ fmtFloats #[d.x, d.y, d.z] ++ " | " ++ fmtFloats #[c.x, c.y, c.z]
+
+/-- `dirfactor nDir nFreq dirs[3*nDir] freqs[nFreq] table[nDir*nFreq] pos view up target f`
+    → `ok value | dirIndex freqIndex | margin` -/
+def cmdDirFactor : P String := do
+  let nd ← nat; let nf ← nat
+  let ds ← flts (3 * nd); let fr ← flts nf; let tb ← flts (nd * nf)
+  let a ← flts 12; let f ← flt
+  let pos := vec3At a 0; let view := vec3At a 1; let up := vec3At a 2; let tg := vec3At a 3
+  let u := metricsDir pos view up tg
+  let di := nearest (fun k => vec3At ds k) nd u
+  let fi := nearestFreq nf (fun k => fr.getD k 0) f
+  let v := directivityFactor nd nf (fun k => vec3At ds k) (fun k => fr.getD k 0) (fun i j => tb.getD (i * nf + j) 0) pos view up tg f
+  let mg := argminMargin nd fun k => Vec3.sqDist (vec3At ds k) u
+  return "ok " ++ hexOfFloat v ++ s!" | {di} {fi} | " ++ hexOfFloat mg
+
 def dispatch (cmd : String) : P String :=
   match cmd with
   | "exchange" => cmdExchange
@@ -339,6 +441,14 @@ def dispatch (cmd : String) : P String :=
   | "life" => cmdLife
   | "patches" => cmdPatches
   | "brdfscat" => cmdBrdfScat
+  | "frame" => cmdFrame
+  | "kangff" => cmdKangFF
+  | "metrics" => cmdMetrics
+  | "dirfactor" => cmdDirFactor
+  | "kanginit" => cmdKangInit
+  | "kangrun" => cmdKangRun
+  | "kanginitp" => cmdKangInitP
+  | "kangrecv" => cmdKangRecv
   | "brdfdir" => cmdBrdfDir
   | "nearestidx" => cmdNearest
   | "wallof" => cmdWallOf
